@@ -18,6 +18,18 @@ use log::error;
 use crate::stream::{Tag, TagPos};
 use crate::{Error, Result};
 
+/// Number of commits and consumes on any stream, ever.
+///
+/// A single threaded graph runner uses this to see that a pass over the blocks
+/// moved data, even if no block said so in its return value.
+pub(crate) static STREAM_ACTIVITY: std::sync::atomic::AtomicU64 =
+    std::sync::atomic::AtomicU64::new(0);
+
+/// Register that data was committed to or consumed from a stream.
+pub(crate) fn stream_activity() {
+    STREAM_ACTIVITY.fetch_add(1, std::sync::atomic::Ordering::Relaxed);
+}
+
 #[derive(Debug)]
 struct Map {
     base: *mut c_uchar,
@@ -429,6 +441,7 @@ impl<T: Copy> Buffer<T> {
         }
         s.rpos = newpos;
         s.used -= n;
+        stream_activity();
         #[cfg(rustradio_verif)]
         crate::verif::emit(format!(
             "\"ev\":\"consume\",\"m\":{},\"n\":{n},\"rpos\":{},\"wpos\":{},\"used\":{}",
@@ -475,6 +488,7 @@ impl<T: Copy> Buffer<T> {
         }
         s.wpos = (s.wpos + n) % s.capacity();
         s.used += n;
+        stream_activity();
         #[cfg(rustradio_verif)]
         crate::verif::emit(format!(
             "\"ev\":\"produce\",\"m\":{},\"n\":{n},\"ntags\":{},\"rpos\":{},\"wpos\":{},\"used\":{}",
